@@ -163,6 +163,7 @@ func runCutMarkers(d []Elem, removed func(int) bool, pm func(int) int) []Marker 
 // checkCutFeature compares one surviving feature of Delete/Erase/Slice with the expectation exp (unreduced
 // expected AST with maximal marking) and the cut-end rule.
 func checkCutFeature(what string, got gts.Feature, want Feat, exp Loc, front, back bool, newLen int, skipMarkers bool, runMarks, keep []Marker) *Violation {
+	origLoc := want.Loc
 	if got.Key != want.Key {
 		return viol("key", "%s: key changed from %q to %q", what, want.Key, got.Key)
 	}
@@ -180,6 +181,12 @@ func checkCutFeature(what string, got gts.Feature, want Feat, exp Loc, front, ba
 	expRes, actRes := residues(expDen), residues(actDen)
 	if !sameElems(expRes, actRes) {
 		return viol("denotation", "%s: expected residues %s, got %s (location %s)", what, elemsString(expRes), elemsString(actRes), ast)
+	}
+	if len(expRes) == 0 && !hasResidue(den(origLoc)) {
+		// a site-only feature: where it survives, its sites sit where the position map puts them
+		if es, as := collapse(expDen), collapse(actDen); !sameElems(es, as) {
+			return viol("site", "%s: site-only feature expected at %s, got %s (location %s)", what, elemsString(es), elemsString(as), ast)
+		}
 	}
 	if len(expRes) == 0 || skipMarkers {
 		return nil
